@@ -58,41 +58,41 @@ theorem stable_ACCurrentSource (π : Rat) (v w phi : GQ) (hv : v.im = 0) (hw : w
     ElemStable π ⟨"ACCurrentSource", [("I", .num v), ("w", .num w), ("phi", .num phi), ("name", .str name), ("reverse", .bool rev)], a, b⟩ :=
   ⟨rt_ACCurrentSource π v w phi hv hw hw0 hp rev name a b, fx_ACCurrentSource π v w phi hv hw hw0 hp rev name a b, sh_ACCurrentSource π v w phi hv hw hw0 hp rev name a b⟩
 
-theorem rt_RectVoltageSource (π : Rat) (v w phi : GQ) (hv : v.im = 0) (hw : w.im = 0) (hw0 : ¬ w.re < 0) (hp : phi.im = 0) (rev : Bool) (name : String) (a b : Pt) :
+theorem rt_RectVoltageSource (π : Rat) (v w phi : GQ) (hv : v.im = 0) (hw : w.im = 0) (hw0 : ¬ w.re ≤ 0) (hp : phi.im = 0) (rev : Bool) (name : String) (a b : Pt) :
     RoundTrips π ⟨"RectVoltageSource", [("V", .num v), ("w", .num w), ("phi", .num phi), ("name", .str name), ("reverse", .bool rev)], a, b⟩ := by
   intro la lb la' lb'
   cases rev <;> simp [hv, hw, hw0, hp]
 
-theorem fx_RectVoltageSource (π : Rat) (v w phi : GQ) (hv : v.im = 0) (hw : w.im = 0) (hw0 : ¬ w.re < 0) (hp : phi.im = 0) (rev : Bool) (name : String) (a b : Pt) :
+theorem fx_RectVoltageSource (π : Rat) (v w phi : GQ) (hv : v.im = 0) (hw : w.im = 0) (hw0 : ¬ w.re ≤ 0) (hp : phi.im = 0) (rev : Bool) (name : String) (a b : Pt) :
     FixedAfter π ⟨"RectVoltageSource", [("V", .num v), ("w", .num w), ("phi", .num phi), ("name", .str name), ("reverse", .bool rev)], a, b⟩ := by
   intro la lb la' lb'
   cases rev <;> simp [hv, hw, hw0, hp]
 
-theorem sh_RectVoltageSource (π : Rat) (v w phi : GQ) (hv : v.im = 0) (hw : w.im = 0) (hw0 : ¬ w.re < 0) (hp : phi.im = 0) (rev : Bool) (name : String) (a b : Pt) :
+theorem sh_RectVoltageSource (π : Rat) (v w phi : GQ) (hv : v.im = 0) (hw : w.im = 0) (hw0 : ¬ w.re ≤ 0) (hp : phi.im = 0) (rev : Bool) (name : String) (a b : Pt) :
     ShellKept π ⟨"RectVoltageSource", [("V", .num v), ("w", .num w), ("phi", .num phi), ("name", .str name), ("reverse", .bool rev)], a, b⟩ := by
   intro la lb
   cases rev <;> simp [hv, hw, hw0, hp]
 
-theorem stable_RectVoltageSource (π : Rat) (v w phi : GQ) (hv : v.im = 0) (hw : w.im = 0) (hw0 : ¬ w.re < 0) (hp : phi.im = 0) (rev : Bool) (name : String) (a b : Pt) :
+theorem stable_RectVoltageSource (π : Rat) (v w phi : GQ) (hv : v.im = 0) (hw : w.im = 0) (hw0 : ¬ w.re ≤ 0) (hp : phi.im = 0) (rev : Bool) (name : String) (a b : Pt) :
     ElemStable π ⟨"RectVoltageSource", [("V", .num v), ("w", .num w), ("phi", .num phi), ("name", .str name), ("reverse", .bool rev)], a, b⟩ :=
   ⟨rt_RectVoltageSource π v w phi hv hw hw0 hp rev name a b, fx_RectVoltageSource π v w phi hv hw hw0 hp rev name a b, sh_RectVoltageSource π v w phi hv hw hw0 hp rev name a b⟩
 
-theorem rt_RectCurrentSource (π : Rat) (v w phi : GQ) (hv : v.im = 0) (hw : w.im = 0) (hw0 : ¬ w.re < 0) (hp : phi.im = 0) (rev : Bool) (name : String) (a b : Pt) :
+theorem rt_RectCurrentSource (π : Rat) (v w phi : GQ) (hv : v.im = 0) (hw : w.im = 0) (hw0 : ¬ w.re ≤ 0) (hp : phi.im = 0) (rev : Bool) (name : String) (a b : Pt) :
     RoundTrips π ⟨"RectCurrentSource", [("I", .num v), ("w", .num w), ("phi", .num phi), ("name", .str name), ("reverse", .bool rev)], a, b⟩ := by
   intro la lb la' lb'
   cases rev <;> simp [hv, hw, hw0, hp]
 
-theorem fx_RectCurrentSource (π : Rat) (v w phi : GQ) (hv : v.im = 0) (hw : w.im = 0) (hw0 : ¬ w.re < 0) (hp : phi.im = 0) (rev : Bool) (name : String) (a b : Pt) :
+theorem fx_RectCurrentSource (π : Rat) (v w phi : GQ) (hv : v.im = 0) (hw : w.im = 0) (hw0 : ¬ w.re ≤ 0) (hp : phi.im = 0) (rev : Bool) (name : String) (a b : Pt) :
     FixedAfter π ⟨"RectCurrentSource", [("I", .num v), ("w", .num w), ("phi", .num phi), ("name", .str name), ("reverse", .bool rev)], a, b⟩ := by
   intro la lb la' lb'
   cases rev <;> simp [hv, hw, hw0, hp]
 
-theorem sh_RectCurrentSource (π : Rat) (v w phi : GQ) (hv : v.im = 0) (hw : w.im = 0) (hw0 : ¬ w.re < 0) (hp : phi.im = 0) (rev : Bool) (name : String) (a b : Pt) :
+theorem sh_RectCurrentSource (π : Rat) (v w phi : GQ) (hv : v.im = 0) (hw : w.im = 0) (hw0 : ¬ w.re ≤ 0) (hp : phi.im = 0) (rev : Bool) (name : String) (a b : Pt) :
     ShellKept π ⟨"RectCurrentSource", [("I", .num v), ("w", .num w), ("phi", .num phi), ("name", .str name), ("reverse", .bool rev)], a, b⟩ := by
   intro la lb
   cases rev <;> simp [hv, hw, hw0, hp]
 
-theorem stable_RectCurrentSource (π : Rat) (v w phi : GQ) (hv : v.im = 0) (hw : w.im = 0) (hw0 : ¬ w.re < 0) (hp : phi.im = 0) (rev : Bool) (name : String) (a b : Pt) :
+theorem stable_RectCurrentSource (π : Rat) (v w phi : GQ) (hv : v.im = 0) (hw : w.im = 0) (hw0 : ¬ w.re ≤ 0) (hp : phi.im = 0) (rev : Bool) (name : String) (a b : Pt) :
     ElemStable π ⟨"RectCurrentSource", [("I", .num v), ("w", .num w), ("phi", .num phi), ("name", .str name), ("reverse", .bool rev)], a, b⟩ :=
   ⟨rt_RectCurrentSource π v w phi hv hw hw0 hp rev name a b, fx_RectCurrentSource π v w phi hv hw hw0 hp rev name a b, sh_RectCurrentSource π v w phi hv hw hw0 hp rev name a b⟩
 
